@@ -224,7 +224,7 @@ func genC11(t *rapid.T, ctx *Ctx) interface{} {
 		c.AT = uint8(c11Types[rapid.IntRange(0, len(c11Types)-1).Draw(t, "at")])
 	}
 	if c.Kind == "media" {
-		c.MediaType = []byte(rapid.SampledFrom([]string{"a/b", "text/plain", "application/x-é"}).Draw(t, "mt"))
+		c.MediaType = []byte(rapid.SampledFrom([]string{"a/b", "text/plain", "application/x-e", "image/svg+xml"}).Draw(t, "mt"))
 		if rapid.IntRange(0, 7).Draw(t, "mtbad") == 0 {
 			if harnessOpen(ctx, "S30-media-type-utf8") {
 				// excluded by known finding
